@@ -15,12 +15,12 @@ META = dict(
     text="Every ordered pair and triple of units in each category of abtem.core.units, through get_conversion_factor and "
          "LinearAxis.convert_units of all four linear axis classes, is executed and checked for composition, inversion and identity. "
          "The unit tables are finite, so the enumeration is complete for the factor function; for axes it is complete over units "
-         "and bounded to three (sampling, offset) pairs.",
+         "and bounded to six (sampling, offset) pairs spanning 1e-6 .. 1e5 in magnitude; the intermediate axis is also copied before the second conversion.",
     note="Trusted: float64 arithmetic (1e-12 relative). Only composition/inversion are decided, not the physical value of a factor "
          "(e.g. mrad->rad), which the property does not state. Cross-category reciprocal->angular conversion is outside the statement.",
 )
 TOL = 1e-12
-VALUES = [(1.0, 0.0), (0.37, 1.5), (2.5, -2.5)]
+VALUES = [(1.0, 0.0), (0.37, 1.5), (2.5, -2.5), (0.01, 3e-3), (1e-4, -2e-6), (1e3, 4e5)]  # offsets from tiny to huge relative to the unit
 
 
 def categories():
@@ -48,7 +48,7 @@ def check(ctx):
     ctx.workers = 4
     ctx.assumptions.append("float64 arithmetic; tolerance 1e-12 relative")
     ctx.run(cases, "run_case", rule="all ordered unit pairs and triples inside each category of abtem.core.units "
-            "(complete), x 4 linear axis classes x 3 (sampling, offset) pairs; non-trivial = the units are not all identical",
+            "(complete), x 4 linear axis classes x 6 (sampling, offset) pairs; non-trivial = the units are not all identical",
             batch=200)
 
 
@@ -99,7 +99,12 @@ def run_case(case):
         via = ax.convert_units(b).convert_units(c)
         direct = ax.convert_units(c)
         back = ax.convert_units(b).convert_units(a)
-        tr = 5
+        mid = ax.convert_units(b)
+        midc = mid.copy()
+        tr = 7
+        if (midc.sampling, midc.offset, midc.units) != (mid.sampling, mid.offset, mid.units):
+            bad("axis/copy-of-converted", "%s %s->%s: copy() of the converted axis has (sampling, offset, units) = %r, the axis itself %r" % (
+                case["axis"], a, b, (midc.sampling, midc.offset, midc.units), (mid.sampling, mid.offset, mid.units)))
         if via.units != direct.units or back.units != ax.units:
             bad("axis/units-label", "units after conversion: via=%s direct=%s back=%s" % (via.units, direct.units, back.units))
         for name, x, y, key in (
